@@ -126,7 +126,7 @@ def st_location():
         lambda d: any(v for v in d.values()))  # documented: at least one element must be set
 
 
-def st_op(inv: Inventory, kinds=None, descriptor_ops=True, context_ops=True, multi=True):  # noqa: C901
+def st_op(inv: Inventory, kinds=None, descriptor_ops=True, context_ops=True, multi=True, kw_hold=True, aborts=True):  # noqa: C901, ARG001
     opts = []
     for kind in (kinds or STATE_KINDS):
         if inv.states[kind]:
@@ -160,6 +160,11 @@ def st_op(inv: Inventory, kinds=None, descriptor_ops=True, context_ops=True, mul
         if multi:
             opts.append(st.tuples(st.just('multi'), st.lists(st_multi_subop(inv), min_size=2, max_size=4)).map(list))
     opts.append(st.tuples(st.just('empty'), st.sampled_from(['metric', 'alert', 'context', 'descriptor'])).map(list))
+    holdable = [hc for kind in (kinds or STATE_KINDS) for hc in inv.states[kind]]
+    if holdable and kw_hold:
+        opts.append(st.tuples(st.just('hold'), st.integers(0, 2), st.sampled_from([h for h, _ in holdable])).map(list))
+        opts.append(st.sampled_from(holdable).flatmap(lambda hc: st.tuples(
+            st.just('write_held'), st.integers(0, 2), _state_spec(hc[1])).map(list)))
     return st.one_of(opts)
 
 
@@ -227,6 +232,19 @@ def st_related_multi(inv: Inventory):
         lambda t: ['multi', list(reversed(t[0])) if t[1] and t[0][0][0] != 'descr_create' else list(t[0])])
 
 
+def _kind_of_cls(cls_name: str) -> str:
+    c = cls_name.split('.')[-1]
+    if 'RealTimeSampleArray' in c:
+        return 'rt'
+    if 'Metric' in c:
+        return 'metric'
+    if 'Alert' in c:
+        return 'alert'
+    if 'Operation' in c:
+        return 'operational'
+    return 'component'
+
+
 def st_block(inv: Inventory, **kw):
     """One op, or a delete ... re-create cycle of one handle with other ops in between."""
     op = st_op(inv, **kw)
@@ -236,6 +254,24 @@ def st_block(inv: Inventory, **kw):
         if dels:
             blocks.append(st.tuples(st.sampled_from(dels), IFACE, IFACE, st.lists(op, max_size=3)).map(
                 lambda t: [['descr_delete', t[0], t[1]], *t[3], ['descr_recreate', t[0], t[2]]]))
+            upd = dict(inv.updatable)
+            cyc = [h for h in inv.deletable if h in upd]
+            if cyc and kw.get('aborts', True):
+                blocks.append(st.tuples(st.sampled_from(cyc), IFACE, IFACE, st.integers(0, 5)).flatmap(
+                    lambda t: T.instance_spec(T.all_classes()[upd[t[0]]]).map(lambda spec: [
+                        ['descr_update', t[0], spec, 'classic'], ['descr_delete', t[0], t[1]],
+                        ['abort', ['descr_recreate', t[0], t[2]], t[3]], ['descr_recreate', t[0], t[2]]])))
+    if kw.get('aborts', True):
+        blocks.append(st.tuples(op, st.integers(0, 5)).map(lambda t: [['abort', t[0], t[1]]]))
+    if kw.get('descriptor_ops', True):
+        holdable = [hc for kind in STATE_KINDS for hc in inv.states[kind]]
+        if holdable and kw.get('kw_hold', True):
+            blocks.append(st.sampled_from(holdable).flatmap(lambda hc: st.tuples(
+                st.integers(0, 2), _state_spec(hc[1]), _state_spec(hc[1]), _state_spec(hc[1]), st.booleans()).map(
+                lambda t, hc=hc: [['hold', t[0], hc[0]],
+                                  (['state', _kind_of_cls(hc[1]), hc[0], t[1], 'classic'] if t[4]
+                                   else ['write_held', t[0], t[1]]),
+                                  ['write_held', t[0], t[2]], ['write_held', t[0], t[3]]])))
         rel = st_related_multi(inv)
         if rel is not None and kw.get('multi', True):
             blocks.append(rel.map(lambda o: [o]))
@@ -251,6 +287,45 @@ def st_program(inv: Inventory, min_ops=1, max_ops=25, **kw):
 
 # ------------------------------------------------------------------------------------------------ interpreter
 
+class Crash(Exception):
+    """The application exception raised inside a transaction body (aborted transactions)."""
+
+
+class CrashCtl:
+    def __init__(self, crash_at):
+        self.crash_at = crash_at
+        self.count = 0
+        self.crashed = False
+        self.modified = False
+
+    def tick(self):
+        if self.crash_at is not None and self.count == self.crash_at:
+            self.crashed = True
+            raise Crash(f'crash point {self.count}')
+        self.count += 1
+
+
+class MgrProxy:
+    """Wraps a transaction manager: every public method call is a crash point."""
+
+    def __init__(self, mgr, ctl):
+        object.__setattr__(self, '_mgr', mgr)
+        object.__setattr__(self, '_ctl', ctl)
+
+    def __getattr__(self, name):
+        attr = getattr(self._mgr, name)
+        if callable(attr) and not name.startswith('_'):
+            ctl = self._ctl
+
+            def wrapper(*a, **kw):
+                r = attr(*a, **kw)
+                ctl.modified = True
+                ctl.tick()
+                return r
+            return wrapper
+        return attr
+
+
 class Skip(Exception):  # noqa: N818
     """The op is not applicable in the current MDIB (target missing / already present)."""
 
@@ -265,6 +340,7 @@ class Interp:
         self.last_info = None
         self.tx_hook = None
         self.point_hook = None
+        self.held = {}  # slot -> entity obtained earlier (possibly stale by now)
         self.nested_hook = None  # callable(obj) applied to every transaction-owned object after _apply (nested writes)
 
     # ---- helpers
@@ -375,6 +451,53 @@ class Interp:
                     self._set_assoc(mgr, st_, assoc)
                 mgr.write_entity(ent, [shandle])
         info['touched'].add(shandle)
+
+    def _op_abort(self, op, info):
+        """['abort', op, k]: run op but raise an application exception at the k-th point of the transaction body."""
+        import contextlib
+        ctl = CrashCtl(op[2])
+
+        @contextlib.contextmanager
+        def hook(cm):
+            with cm as mgr:
+                ctl.tick()
+                yield MgrProxy(mgr, ctl)
+                ctl.tick()
+        saved = (self.tx_hook, self.point_hook)
+        self.tx_hook, self.point_hook = hook, ctl.tick
+        try:
+            inner = {'op': op[1][0], 'skipped': False, 'touched': set(), 'created': set(), 'deleted': set()}
+            getattr(self, f'_op_{op[1][0]}')(op[1], inner)
+            # the crash point lies behind the end of the body: the op committed normally
+            for k in ('touched', 'created', 'deleted'):
+                info[k].update(inner[k])
+            info['aborted'] = False
+        except Crash:
+            info['aborted'] = True
+        finally:
+            self.tx_hook, self.point_hook = saved
+
+    def _op_hold(self, op, info):
+        """Obtain an entity now and keep it (it may be stale when it is written later). No transaction."""
+        _, slot, handle = op
+        ent = self.mdib.entities.by_handle(handle)
+        if ent is None or ent.is_multi_state:
+            raise Skip
+        self.held[slot] = ent
+        raise Skip  # nothing committed: counts as not applied
+
+    def _op_write_held(self, op, info):
+        _, slot, spec = op
+        ent = self.held.get(slot)
+        if ent is None or self._descr(ent.handle) is None or T.cls_name(type(ent.state)) != spec['cls']:
+            raise Skip
+        kind = kind_of_state(ent.state)
+        if kind is None:
+            raise Skip
+        self._apply(ent.state, spec, PROTECTED)
+        with self._tx(kind) as mgr:
+            mgr.write_entity(ent)
+        info['touched'].add(ent.handle)
 
     def _op_ctx_multi(self, op, info):
         """Several context states (possibly of one descriptor) updated in one transaction (classic interface)."""
